@@ -732,6 +732,26 @@ def plan_C19(tier, rng):
             c = cfgs[i % len(cfgs)]
             cs.parse(ep, F["name"], 0, s, [c], wo=True, opts=pf(), partial=True)
             cs.parse(ep, F["name"], 0, s, [c], wo=True, opts=pf(lossy=True), partial=True)
+    # mantissas that fit the 64-bit register but not the float (no truncation, not an exact fast path): whatever shortcut a
+    # lossy build takes for them must stay within one ulp (S-C19-b: chained roundings in the 'disguised fast path' window)
+    for F in (F64, F32):
+        nd_lo, nd_hi = (16, 19) if F is F64 else (8, 19)
+        # (window of decimal exponents, how many): dense just beyond the exact fast path on both sides, thinner elsewhere
+        wins = [((20, 40), 3000), ((-42, -20), 1500), ((-20, 20), 800), ((-345, 310), 1500)] if F is F64 else \
+               [((8, 20), 1500), ((-22, -8), 800), ((-8, 8), 400), ((-60, 45), 700)]
+        for ((lo, hi), cnt) in wins:
+            for _ in range(cnt if quick else cnt * 10):
+                i += 1
+                nd = rng.randrange(nd_lo, nd_hi + 1)
+                m = rng.randrange(10 ** (nd - 1), 10 ** nd)
+                s = "%de%d" % (m, rng.randrange(lo, hi + 1))
+                if i % 3 == 0:
+                    k = rng.randrange(1, nd)
+                    s = "%s.%se%d" % (str(m)[:k], str(m)[k:], rng.randrange(lo, hi + 1) + nd - k)
+                ep = cs.new_ep()
+                c = cfgs[i % len(cfgs)]
+                cs.parse(ep, F["name"], 0, s, [c], wo=True, opts=pf(), tag="register-sized-mantissa")
+                cs.parse(ep, F["name"], 0, s, [c], wo=True, opts=pf(lossy=True))
     for data in junk_bytes():
         ep = cs.new_ep()
         cs.parse(ep, "f64", 0, data, cfgs, wo=True, opts=pf(), tag="junk")
@@ -803,6 +823,25 @@ def near_power_floats(F, r, rng, n):
     return out
 
 
+def near_fraction_floats(F, r, rng, n):
+    """floats within a few ulp of n + j / r^k: the digit generation ends with a round-up whose carry runs back through
+    the fraction digits (S-C07-b: a carry that reaches the first fraction digit)"""
+    import struct
+    out = []
+    ints = [1, 2, 3, 7, r - 1, r, r + 1, r * r + 1, 1 << 20, 1000003]
+    for _ in range(n):
+        k = rng.choice([1, 1, 1, 2, 2, 3])
+        j = rng.randrange(1, r ** k)
+        x = rng.choice(ints) + j / float(r ** k)
+        if F["p"] == 24:
+            b = struct.unpack("<I", struct.pack("<f", x))[0]
+        else:
+            b = struct.unpack("<Q", struct.pack("<d", x))[0]
+        for d in (-2, -1, 0, 1):
+            out.append(("%x" % (b + d), "near-fraction"))
+    return out
+
+
 # ================================================================================================
 # C06
 
@@ -850,6 +889,7 @@ def plan_C07(tier, rng):
         for F in (F64, F32):
             vals = writer_floats(F, rng, 14 if quick else 500, 10 if quick else 400)
             vals += near_power_floats(F, r, rng, 6 if quick else 200)
+            vals += near_fraction_floats(F, r, rng, 10 if quick else 300)
             for k in range(1, 12):
                 for d in (-1, 0, 1):
                     v = r ** k + d
@@ -1108,6 +1148,31 @@ def plan_C14(tier, rng):
             cs.write(ep, F["name"], 0, bits, c, wo=True, opts=wf(**dict(b, trim=True)))
             if i % 5 == 0:
                 cs.write(ep, F["name"], 0, bits, c, wo=True, opts=wf(**dict(b, exp=69, point=44)))
+    # the full product of max / min / trim / round mode / breaks on values whose rounding carries into a new leading digit,
+    # rounds down onto trailing zeros, ties, or is integral (S-C14-b: carry + trim + min padding together)
+    combo_vals = [0.996, 0.9996, 9.996, 99.96, 0.0996, 9.5, 0.95, 1.25, 1.35, 0.999999, 12345.678, 7.04, 704341.925, 9.96e20, 9.996e-7,
+                  1.0, 100.0, 0.5, 2.5e-5, 999.5]
+    for F in (F64, F32):
+        for x in combo_vals:
+            bits = gens.pyfloat_bits(F, x)
+            for b in (dict(), dict(pos=1, neg=-1)):
+                for trim in (False, True):
+                    i += 1
+                    ep = cs.new_ep()
+                    c = [cfgs[i % len(cfgs)]]
+                    cs.write(ep, F["name"], 0, bits, c, wo=True, opts=wf(**b), tag="option-product")          # default digits twin
+                    cs.write(ep, F["name"], 0, bits, c, wo=True, opts=wf(**dict(b, trim=trim)))
+                    for mx in (0, 1, 2, 3):
+                        for mn in (0, 1, 2, 3, 5):
+                            if mx and mn > mx:
+                                continue
+                            for rd in ("round", "truncate"):
+                                if mx == 0 and (rd == "truncate" or mn == 0):
+                                    continue
+                                o = wf(**dict(b, max=mx, min=mn, trim=trim, round=rd))
+                                cs.write(ep, F["name"], 0, bits, c, wo=True, opts=o)
+                                if trim:
+                                    cs.write(ep, F["name"], 0, bits, c, wo=True, opts=dict(o, trim=False))
     # other radices: counts, padding, notation flags, trim, punctuation
     for r in ([2, 16, 3, 36] if quick else [2, 4, 8, 16, 32, 3, 7, 12, 36]):
         rc = radix_cfgs(r, cfgs)
